@@ -10,6 +10,7 @@ from prop import SchedProp  # noqa: E402
 
 class C43(SchedProp):
     id = 'C43'
+    also = ['C43R']
     props_modules = ['CylcModel.Props.C43']
     theorems = [
         'CylcModel.C43.stop_point_submit_counterexample',
